@@ -136,7 +136,7 @@ func (x *Exec) inlinable(fn *ssa.Function) bool {
 		return true
 	}
 	switch p {
-	case "encoding/binary", "slices":
+	case "encoding/binary", "slices", "cmp":
 		return true
 	}
 	return false
